@@ -737,7 +737,10 @@ class ODF2XHTML(handler.ContentHandler):
         """
         parent = self.tagstack.stackparent()
         anchor_type = parent.get((TEXTNS,'anchor-type'))
-        imghref = attrs[(XLINKNS,"href")]
+        imghref = attrs.get((XLINKNS,"href"))
+        if imghref is None:
+            # the picture is inside the content (office:binary-data)
+            return
         imghref = self.rewritelink(imghref)
         htmlattrs = {'alt':"", 'src':imghref }
         if self.generate_css:
